@@ -158,6 +158,16 @@ def model_check(ctx, sc, ref, r, fault, label):
         if kind == "corrupt" and per[bi][j]["route"] != data_route:
             return
         sum_ok = 0
+    elif kind.startswith("async"):
+        polls = 0
+        for opt in kind.split(":")[1:]:
+            if opt.startswith("polls="):
+                polls = int(opt[6:])
+        replies = replies + [0] * 4
+        replies[j] = 3
+        for i in range(polls):
+            replies[j + 1 + i] = 2
+        replies[j + 1 + polls] = 1 if kind.endswith("fail") else 0
     else:
         replies[j] = 1
     if sc.provider == "dropbox":
@@ -204,18 +214,26 @@ def provider_sweep(ctx, rng, provider, budget):
                 if kind == "reset_inside_body" and not q.get("body_bytes"):
                     continue
                 points.append((q, kind))
+            if q["route"] == "yandex.resources.move":
+                # the move is answered 202 + operation: completes at once / after two in-progress polls / fails
+                points += [(q, "async"), (q, "async:polls=2"), (q, "async:fail"), (q, "async:polls=1:fail")]
         if budget is not None and len(points) > budget:
-            must = [p for p in points if p[0]["route"] in UPLOAD_ROUTES[provider] and p[1] in ("http_5xx_json", "reset_inside_body", "corrupt", "wrong_checksum", "malformed_json")]
+            must = [p for p in points if p[0]["route"] in UPLOAD_ROUTES[provider] and (p[1] in ("http_5xx_json", "reset_inside_body", "corrupt", "wrong_checksum", "malformed_json") or p[1].startswith("async"))]
             rest = [p for p in points if p not in must]
             points = rng.sample(must, min(len(must), budget * 2 // 3)) + rng.sample(rest, min(len(rest), budget - min(len(must), budget * 2 // 3)))
         n = 1
         for q, kind in points:
-            fault = {"when": {"index": q["index"]}, "fault": kind}
+            fault = {"when": {"index": q["index"]}, "fault": kind.split(":")[0]}
+            for opt in kind.split(":")[1:]:
+                if opt == "fail":
+                    fault["fail"] = True
+                elif opt.startswith("polls="):
+                    fault["polls"] = int(opt[6:])
             r = sc.run(n, script=[fault])
             n += 1
             ctx.evaluations += 1
             ctx.nontrivial.add((provider, q["index"], kind))
-            ctx.count("fault.%s" % kind)
+            ctx.count("fault.%s" % kind.split(":")[0])
             ctx.count("faulted_route.%s" % q["route"])
             applied = [x for x in r["requests"] if x.get("fault")]
             label = "%s, %s at request %d (%s)" % (provider, kind, q["index"], q["route"])
@@ -296,7 +314,8 @@ def run(ctx):
     budget = None if thorough else 14
     ctx.rule = ("for each of Dropbox, Yandex Disk, Google Drive: a local group of two backups made by real runs is uploaded to the emulator; one "
                 "undisturbed reference run, then %s (request, fault kind) pairs out of every request of the reference run x {4xx JSON, 5xx JSON, 5xx "
-                "text, malformed JSON, missing Content-Type, reset before body, reset inside body, server-side corruption, wrong reported checksum}, "
+                "text, malformed JSON, missing Content-Type, reset before body, reset inside body, server-side corruption, wrong reported checksum; for Yandex also the move answered 202 with an operation that succeeds / stays in "
+                "progress for polls / fails}, "
                 "each on a fresh emulator state; plus gpg exiting non-zero mid-stream, gpg killed by SIGKILL / SIGTERM mid-stream (silently), gpg failing at once, gpg absent, and the first / second read of a backup's data.tar.zst / metadata.zst failing with EIO (strace injection). Non-trivial: every faulted run; "
                 "distinct by (provider, request index, kind)." % ("ALL" if thorough else "14 sampled (two thirds on upload routes)"))
     for provider in ("dropbox", "yandex", "google"):
